@@ -132,14 +132,20 @@ impl AdvBus {
             }
             5 => None,
             6 => return BusReply::Err,
-            7 => Some(match cx.draw(6) {
-                0 => Message::Goodbye(own),
-                1 => Message::Hello(own),
-                2 => Message::QueryState(own),
-                3 => Message::SendData(flipdot_core::Offset(0), gens::data(cx.bytes(cx.draw(17) as usize))),
-                4 => Message::DataChunksSent(flipdot_core::ChunkCount(cx.draw(4) as u16)),
-                _ => Message::PixelsComplete(own),
-            }),
+            7 => {
+                // controller-side traffic handed back as a "reply": another controller talking to this
+                // sign or (half of the time) to another one
+                let a = if cx.chance(1, 2) { own } else { foreign(cx) };
+                Some(match cx.draw(7) {
+                    0 => Message::Goodbye(a),
+                    1 => Message::Hello(a),
+                    2 => Message::QueryState(a),
+                    3 => Message::SendData(flipdot_core::Offset(0), gens::data(cx.bytes(cx.draw(17) as usize))),
+                    4 => Message::DataChunksSent(flipdot_core::ChunkCount(cx.draw(4) as u16)),
+                    5 => Message::RequestOperation(a, gens::ALL_OPS[cx.draw(6) as usize]),
+                    _ => Message::PixelsComplete(a),
+                })
+            }
             8 => Some(Message::Unknown(gens::unknown_frame(cx))),
             9 => {
                 // failure report (drives the retry logic)
@@ -267,7 +273,7 @@ impl Scenario for Adversary {
         }
     }
     fn describe(&self) -> &'static str {
-        "real Sign against an adversarial bus stub: at every step the reply is drawn from the full reply alphabet (13 states x own/foreign address, 6 acks x own/foreign, wrong-operation acks, silence, controller-side messages, unknown frames, bus error), biased per run towards the reply that keeps the protocol going"
+        "real Sign against an adversarial bus stub: at every step the reply is drawn from the full reply alphabet (13 states x own/foreign address, 6 acks x own/foreign, wrong-operation acks, silence, controller-side messages, unknown frames, bus error), biased per run towards the reply that keeps the protocol going; controller-side traffic (hello, query, request, data, count, complete, goodbye) with the own or a foreign address is part of the alphabet; one caller in four keeps no handle on the bus after Sign::new"
     }
 
     fn run(&self, cx: &Cx) -> Result<(), Violation> {
@@ -281,6 +287,16 @@ impl Scenario for Adversary {
         let max_in_progress = if cx.chance(1, 64) { 200 + cx.draw(400) as u32 } else { 8 };
         let bus = Rc::new(RefCell::new(AdvBus { cx: cx.clone(), addr, model: dummy, judge: self.judge, good_num, turns: Vec::new(), in_progress_run: 0, cut: false, max_in_progress, last_sent: None }));
         let sign = Sign::new(bus.clone(), addr, t);
+        // One caller in four hands its only handle on the bus to the controller (as the repository's
+        // multi-page example does); the simulator then looks at the bus through a weak handle only.
+        let weak = Rc::downgrade(&bus);
+        let _kept = if cx.chance(1, 4) {
+            cx.probe("caller_keeps_no_handle_on_the_bus");
+            None
+        } else {
+            Some(bus.clone())
+        };
+        drop(bus);
         cx.set_nontrivial();
         let mut whole: Vec<u64> = Vec::new();
         for k in 0..ncalls {
@@ -317,6 +333,10 @@ impl Scenario for Adversary {
             };
             let call = call_of(&op);
             {
+                let Some(bus) = weak.upgrade() else {
+                    cx.fail("C10/bus-not-kept-alive", format!("before call #{k}: the bus handed to Sign::new no longer exists although the Sign does"));
+                    return cx.verdict();
+                };
                 let mut b = bus.borrow_mut();
                 b.model = ControllerModel::new(addr, call.clone(), items);
                 b.turns.clear();
@@ -330,10 +350,10 @@ impl Scenario for Adversary {
             // the middle of the operation and the call would end with none of the documented outcomes.
             let out = if matches!(op, Op::SendPages(_)) && self.judge == Judge::Model && cx.chance(1, 3) {
                 cx.probe("page_list_that_looks_at_the_bus");
-                let b2 = bus.clone();
+                let b2 = weak.clone();
                 let cxp = cx.clone();
                 let probe = move || {
-                    if b2.try_borrow_mut().is_err() {
+                    if b2.upgrade().map(|b| b.try_borrow_mut().is_err()).unwrap_or(false) {
                         cxp.fail("C10/bus-held-while-page-list-is-advanced", "the bus was still mutably borrowed when send_pages asked the page list for its next page; a lazy page source that looks at the bus would panic here and the call would end with no documented outcome".to_string());
                     }
                 };
@@ -343,6 +363,10 @@ impl Scenario for Adversary {
             };
             cx.event("outcome", &out);
             cx.note(|| format!("  -> {out:?}"));
+            let Some(bus) = weak.upgrade() else {
+                cx.fail("C10/bus-not-kept-alive", format!("call #{k} {call:?} returned {out:?}: the bus handed to Sign::new no longer exists although the Sign does"));
+                return cx.verdict();
+            };
             let b = bus.borrow();
             cx.probe(&format!("call:{:?}:{:?}", call, out));
             if k > 0 {
